@@ -10,8 +10,8 @@ From OgRek Require Import Base Value Reader Decoder DecoderFacts Encoder Encoder
    StrictUnicode setting reads it back with the same content (erase: content without slice / big.Int
    identities), leaving following bytes untouched.  fits_proto c t lists, per leaf, what protocol c
    must offer for the theorem to apply; what it excludes is exactly (a) the three documented
-   limitations, and (b) forms the proof does not cover yet: protocol-0 text forms of strings and
-   floats, payloads of 2^32 bytes or more.
+   limitations, (b) payloads of 2^32 bytes or more in the counted forms, (c) a protocol-0 float whose
+   %g text (oracle) would not read back as the same bits.
    Outside the fragment the property is decided on every run by the decode -> encode -> decode
    chain on the implementation, compared with both models. *)
 Theorem C05_redecode_partial : forall cfg c st0 inp x st1 rest0 t st rest,
